@@ -938,7 +938,7 @@ MUTANTS = [
                      "                self._undecided = data\n                return None\n", "")],
            expect_rule="sniff/valid-prefix-rejected"),
     Mutant("F47-half-reverted-buffer-never-joined", W, "            data = self._undecided + data\n            self._undecided = b\"\"\n", "            self._undecided = b\"\"\n",
-           expect_rule="sniff/"),
+           expect_rule="segmentation/invariant"),
     Mutant("F47-wait-test-too-generous-garbage-never-refused", W, "            elif (len(data) < 16 and data[:12] == V2Parser.PREFIX[: len(data)]) or (\n                len(data) < 8 and data[:5] == V1Parser.PROXYSTR[: len(data)]\n            ):\n",
            "            elif len(data) < 16:\n", expect_rule="sniff/"),
     Mutant("v2-local-header-family-byte-looked-up-first", V2,
